@@ -13,6 +13,10 @@ import (
 // JApiCore the Brain and heart of jApi. Collects lexemes from scanner, validates document logic and structure,
 // builds catalog, renders documentation
 type JApiCore struct {
+	// validated and validationError keep the outcome of the first ValidateJAPI call.
+	validated       bool
+	validationError *jerr.JApiError
+
 	// processedUserTypes a "set" of already build user types.
 	processedUserTypes map[string]struct{}
 
@@ -156,9 +160,15 @@ func NewJApiCore(file *fs.File, oo ...Option) *JApiCore {
 	return core
 }
 
-// ValidateJAPI should be used to check if .jst file is valid according to specification
+// ValidateJAPI should be used to check if .jst file is valid according to specification.
+// The project is processed once: further calls return the result of the first one
+// (processing it again on top of the state left by the first call reported bogus errors).
 func (core *JApiCore) ValidateJAPI() *jerr.JApiError {
-	return core.processJApiProject()
+	if !core.validated {
+		core.validationError = core.processJApiProject()
+		core.validated = true
+	}
+	return core.validationError
 }
 
 func (core *JApiCore) Catalog() *catalog.Catalog {
